@@ -60,6 +60,8 @@ Section Roots.
     ri_closed : ∀ p c, p ∈ V → p ∉ lists s → p ∉ busy → c ∈ kids P m0 p → c ∉ t_non s;
     (* whatever left the non-root list is reachable from a root *)
     ri_resc : ∀ v, v ∈ t_non s1 → v ∉ t_non s → ∃ u, u ∈ t_root s1 ∧ treach P m0 u v;
+    (* unvisited objects are not touched *)
+    ri_out : ∀ v, v ∉ V → hdr_of (t_m s) v = hdr_of (t_m s1) v;
   }.
 
   Lemma lists_sub busy s v : RInv busy s → v ∈ lists s → v ∈ V.
@@ -89,7 +91,7 @@ Section Roots.
     (∀ b o, EBad b o ∈ log m' → EBad b o ∈ log (t_m s)) →
     RInv busy (TState m' (t_root s) (t_non s) (t_q s)).
   Proof.
-    intros [Hfr Hnb Hpc Hsz Hh Hnd Hrs Hns Hil Hiq Hnp Hb Hcl Hre] Hheap Hp Hs Hfr' Hlog.
+    intros [Hfr Hnb Hpc Hsz Hh Hnd Hrs Hns Hil Hiq Hnp Hb Hcl Hre Hout] Hheap Hp Hs Hfr' Hlog.
     assert (Hhd : ∀ v, hdr_of m' v = hdr_of (t_m s) v) by (intros; by apply hdr_of_heap).
     split; unfold lists, nobad in *; cbn [t_m t_root t_non t_q] in *; rewrite ?Hp, ?Hs; try done.
     - intros b o Hbad. by apply Hnb, Hlog.
@@ -97,6 +99,7 @@ Section Roots.
     - intros v Hv. rewrite Hhd. by apply Hil.
     - intros v Hv. rewrite Hhd. by apply Hiq.
     - intros v Hv. rewrite Hhd. by apply Hnp.
+    - intros v Hv. rewrite Hhd. by apply Hout.
   Qed.
 
   (** one reported child in the root-tracing phase *)
@@ -107,7 +110,7 @@ Section Roots.
     (∀ v, v ∈ lists (visit_root s c) ↔ v ∈ lists s) ∧
     length (lists (visit_root s c)) = length (lists s).
   Proof.
-    intros HI Hc Hkid. pose proof HI as [Hfr Hnb Hpc Hsz Hh Hnd Hrs Hns Hil Hiq Hnp Hb Hcl Hre].
+    intros HI Hc Hkid. pose proof HI as [Hfr Hnb Hpc Hsz Hh Hnd Hrs Hns Hil Hiq Hnp Hb Hcl Hre Hout].
     pose proof (V_alloc c Hc) as Hal.
     pose proof (visit_root_frame K s c) as Hfr1.
     assert (Hfr' : mframe K m0 (t_m (visit_root s c))) by (by eapply mframe_trans).
@@ -174,6 +177,7 @@ Section Roots.
                    { intros Hin. apply Hpl. rewrite !elem_of_app. tauto. }
                    exists u. split; [done|]. by eapply treach_step.
              ++ apply Hre; [done|]. intros Hin. apply Hvn. by rewrite remove_id_elem.
+          -- intros v Hv. assert (v ≠ c) by (intros ->; done). rewrite Uo by done. by apply Hout.
         * rewrite remove_id_elem. tauto.
         * intros v. rewrite remove_id_elem. tauto.
         * intros v. by rewrite Hperm.
@@ -212,7 +216,7 @@ Section Roots.
   Lemma RInv_unbusy p s :
     RInv [p] s → (∀ c, c ∈ kids P m0 p → c ∉ t_non s) → RInv [] s.
   Proof.
-    intros [Hfr Hnb Hpc Hsz Hh Hnd Hrs Hns Hil Hiq Hnp Hb Hcl Hre] Hk. split; try done.
+    intros [Hfr Hnb Hpc Hsz Hh Hnd Hrs Hns Hil Hiq Hnp Hb Hcl Hre Hout] Hk. split; try done.
     - intros v Hv. by apply elem_of_nil in Hv.
     - intros p' c Hp Hl _ Hc. destruct (decide (p' = p)) as [->|Hne]; [by apply Hk|].
       eapply Hcl; try done. by intros ->%elem_of_list_singleton.
@@ -224,7 +228,7 @@ Section Roots.
     RInv [p] (TState (uhdr p (set_mark NM) (t_m s)) root' (t_non s) q') ∧
     length (lists s) = S (length (root' ++ t_non s ++ q')).
   Proof.
-    intros HI Hcase. pose proof HI as [Hfr Hnb Hpc Hsz Hh Hnd Hrs Hns Hil Hiq Hnp Hb Hcl Hre].
+    intros HI Hcase. pose proof HI as [Hfr Hnb Hpc Hsz Hh Hnd Hrs Hns Hil Hiq Hnp Hb Hcl Hre Hout].
     assert (Hperm : lists s ≡ₚ p :: (root' ++ t_non s ++ q')).
     { unfold lists. destruct Hcase as [(-> & ->)|(-> & -> & ->)]; [done|].
       cbn. by rewrite <- Permutation_middle. }
@@ -275,14 +279,15 @@ Section Roots.
     - intros p' c Hp Hl Hbz Hk. apply (Hcl p' c); try done.
       + rewrite Hperm. rewrite elem_of_cons. intros [->|?]; [|done]. apply Hbz. by left.
       + apply not_elem_of_nil.
+    - intros v Hv. assert (v ≠ p) by (intros ->; done). rewrite Uo by done. by apply Hout.
   Qed.
 
   Lemma roots_panic s :
-    RInv [] s ∨ (∃ p, RInv [p] s) → PanicPost K m0 (unmark_all (lists s) (t_m s)).
+    RInv [] s ∨ (∃ p, RInv [p] s) → PanicPost K P m0 (unmark_all (lists s) (t_m s)).
   Proof.
     intros HI'.
     assert (HI : ∃ b, RInv b s) by (destruct HI' as [?|[? ?]]; eauto). clear HI'.
-    destruct HI as [b [Hfr Hnb Hpc Hsz Hh Hnd Hrs Hns Hil Hiq Hnp Hb Hcl Hre]].
+    destruct HI as [b [Hfr Hnb Hpc Hsz Hh Hnd Hrs Hns Hil Hiq Hnp Hb Hcl Hre Hout]].
     destruct (fold_uhdr_same (set_mark NM) (lists s) (t_m s)) as (Hpc3 & Hsz3 & Hlog3).
     fold (unmark_all (lists s) (t_m s)) in *. set (m3 := unmark_all _ _) in *.
     assert (Hfr3 : mframe K m0 m3) by (eapply mframe_trans; [done|apply unmark_all_frame]).
@@ -302,14 +307,24 @@ Section Roots.
     split.
     - intros v Hv. rewrite (Hnm v Hv), Hpc3, Hpc. split; [by left|]. split; [done|].
       by intros ?%elem_of_nil.
-    - intros v. rewrite Hpc3, Hpc. by intros ?%elem_of_nil.
+    - split; [intros v; rewrite Hpc3, Hpc; by intros ?%elem_of_nil|].
+      intros v.
+      destruct (fold_uhdr_tc (set_mark NM) (lists s) (t_m s) v) as [E3 T3]; [done|].
+      fold (unmark_all (lists s) (t_m s)) in E3, T3. fold m3 in E3, T3.
+      destruct (decide (v ∈ V)) as [Hv|Hv].
+      + right. split; [by apply V_reach|]. etrans; [exact T3|]. rewrite (Hh v). cbn [h_tc set_mark].
+        eapply (CInv_tc_le K P m0 ext Hpre [] s1 v HC). by rewrite V_tracked.
+      + left. rewrite E3, (Hout v Hv).
+        * apply (ci_un _ _ _ _ _ _ HC). by rewrite V_tracked.
+        * intros Hl. apply Hv. apply (lists_sub b s v); [|done].
+          by split.
   Qed.
 
   Lemma process_root_inv s p :
     RInv [p] s →
     match process_root K P s p with
     | (s', false) => RInv [] s' ∧ length (lists s') = length (lists s)
-    | (s', true) => PanicPost K m0 (t_m s')
+    | (s', true) => PanicPost K P m0 (t_m s')
     end.
   Proof.
     intros HI. unfold process_root.
@@ -333,7 +348,7 @@ Section Roots.
   Lemma roots_inv fuel s :
     RInv [] s → (length (lists s) < fuel)%nat →
     ∃ s' b, roots K P fuel s = Some (s', b) ∧
-      if (b : bool) then PanicPost K m0 (t_m s')
+      if (b : bool) then PanicPost K P m0 (t_m s')
       else RInv [] s' ∧ t_root s' = [] ∧ t_q s' = [].
   Proof.
     revert s. induction fuel as [|f IH]; intros s HI Hfuel; [lia|]. cbn [roots].
